@@ -350,7 +350,7 @@ pub fn run_c11(chk: &Check, tier: Tier) {
     let channels: Vec<u8> = if tier.thorough() { (0..16).collect() } else { vec![0, 9, 15] };
     let vals: &[u8] = if tier.thorough() { &V8 } else { &V3 };
     for &c in &channels {
-        let mut sys = c11_system("C11", c, Report { oracle: true, ..Default::default() }, vals, true);
+        let mut sys = c11_system("C11", c, Report { oracle: true, ..Default::default() }, vals, true).with_pumps(&CONTRIB, 3);
         sys.storms = vec![(256, false), (65536, false), (65536, true)];
         let out = xs::explore(&sys, &Limits::default());
         engine::record(chk, &sys, &out, None);
@@ -458,7 +458,7 @@ pub fn run_c10(chk: &Check, tier: Tier) {
     let vals: &[u8] = if tier.thorough() { &V8 } else { &V3 };
     let nontrivial = AtomicU64::new(0);
     for &c in &channels {
-        let sys = c11_system("C10", c, Report::default(), vals, false);
+        let sys = c11_system("C10", c, Report::default(), vals, false).with_pumps(&CONTRIB, 3);
         let out = xs::explore(&sys, &Limits::default());
         engine::record(chk, &sys, &out, None);
         if out.nodes.len() > 20_000 {
